@@ -29,11 +29,30 @@ def run(ctx):
              'the draw uses p= the probabilities unzipped from the same mixture whose unitaries are indexed by the draw, and the drawn index is returned', floor=3, style='MPT')
     bs = repo.cls('cirq.sim.state_vector_simulation_state._BufferedStateVector')
     ac = repo.method(bs.qual, 'apply_channel')
+    from ..flow import name_deps
+
+    def src(x):
+        if isinstance(x, ast.Call) and call_name(x) == 'norm':
+            return {'<norm>'}
+        if isinstance(x, ast.Call) and call_name(x) in ('random', 'random_sample', 'uniform', 'rand'):
+            return {'<uniform>'}
+        return None
+    dep = name_deps(ac, {}, source_of=src)
+
+    def labels(e):
+        out = set()
+        for x in ast.walk(e):
+            if isinstance(x, ast.Name):
+                out |= dep.get(x.id, set())
+            out |= src(x) or set()
+        return out
     div = [n for n in ast.walk(ac) if isinstance(n, ast.AugAssign) and isinstance(n.op, ast.Div) and is_self_attr(n.target) and 'buffer' in n.target.attr]
     sw = [c for c in ast.walk(ac) if isinstance(c, ast.Call) and call_name(c) == '_swap_target_tensor_for']
-    ok = bool(div) and bool(sw) and div[-1].lineno < sw[-1].lineno and 'sqrt' in ast.unparse(div[-1].value) and 'weight' in ast.unparse(div[-1].value)
+    ok = bool(div) and bool(sw) and div[-1].lineno < sw[-1].lineno and any(isinstance(c, ast.Call) and call_name(c) == 'sqrt' and '<norm>' in labels(c) for c in ast.walk(div[-1].value))
     ctx.ob('C09.b', f'{bs.qual}.apply_channel:renormalise-before-commit', ok, '' if ok else 'the selected trajectory is committed without dividing by sqrt(weight): the state is no longer normalised', bs.mod.rel, ac.lineno)
-    ok = any(isinstance(n, ast.AugAssign) and isinstance(n.op, ast.Sub) and ast.unparse(n.target) == 'p' and 'weight' in ast.unparse(n.value) for n in ast.walk(ac))
+    # a uniform draw is decremented by the branch weights (squared norms) and the branch is taken when it drops below zero
+    ok = any(isinstance(n, ast.AugAssign) and isinstance(n.op, ast.Sub) and isinstance(n.target, ast.Name) and '<uniform>' in dep.get(n.target.id, set())
+             and '<norm>' in labels(n.value) for n in ast.walk(ac))
     ctx.ob('C09.b', f'{bs.qual}.apply_channel:draw-by-weights', ok, '' if ok else 'the branch is not selected by subtracting the branch weights from a uniform draw', bs.mod.rel, ac.lineno)
     am = repo.method(bs.qual, 'apply_mixture')
     ch = [c for c in ast.walk(am) if isinstance(c, ast.Call) and call_name(c) == 'choice']
